@@ -115,20 +115,21 @@ Definition checked_with (cs : list rcheck) (d : fitsdoc) : rres :=
 
 Definition of_doc_checked (d : fitsdoc) : rres := checked_with read_checks d.
 
-(* cfitsio transfers whole 2880-byte records: a final partial block of a disk file cannot be read (file_read: short fread ->
-   READ_ERROR), so only the whole blocks of the input are visible to the reader *)
-Definition whole_blocks (b : list N) : list N := firstn (block * (length b / block)) b.
+(* read_fits / splinetable(path) / readsplinefitstable: any byte string (cfitsio's disk driver delivers a final partial block) *)
+Definition read_bytes_checked (b : list N) : rres := of_doc_checked (fst (decode_prefix b)).
 
-(* read_fits / splinetable(path) / readsplinefitstable: any byte string *)
-Definition read_bytes_checked (b : list N) : rres := of_doc_checked (fst (decode_prefix (whole_blocks b))).
+(* cfitsio's MEMORY driver transfers whole 2880-byte records only (mem_read refuses a record that crosses the end of the buffer): a
+   final partial block of the buffer is invisible to the reader *)
+Definition whole_blocks (b : list N) : list N := firstn (block * (length b / block)) b.
 
 (* read_fits_mem / readsplinefitstable_mem: when the translator found the HDU extent guard in read_fits_mem (walk the HDUs cfitsio
    found; refuse if one ends beyond the buffer), a buffer whose HDU scan stops at a header announcing more data than is left
    (decode_prefix: ETruncData) is refused before anything is read *)
 Definition tail_truncated (b : list N) : bool :=
-  match snd (decode_prefix (whole_blocks b)) with Some ETruncData => true | _ => false end.
+  match snd (decode_prefix b) with Some ETruncData => true | _ => false end.
 Definition read_mem_checked (b : list N) : rres :=
-  if mem_guard_present && tail_truncated b then RReject ETruncData else read_bytes_checked b.
+  let b' := whole_blocks b in
+  if mem_guard_present && tail_truncated b' then RReject ETruncData else read_bytes_checked b'.
 
 (* the checks the property needs; C07_Proofs shows read_checks contains them *)
 Definition required_checks : list rcheck := [CkKnotsEnough 2 2; CkAxesMatch 1; CkKnotsFinite; CkKnotsSorted].
@@ -137,7 +138,7 @@ Definition has_required (cs : list rcheck) : bool := forallb (fun c => existsb (
 (* "array sizes match the header": what the accepted table's shape is derived from *)
 Definition sizes_match_header (b : list N) (t : table) : Prop :=
   exists h0 rest ly,
-    fst (decode_prefix (whole_blocks b)) = h0 :: rest /\ hdu_layout (h_cards h0) = Ok ly /\
+    fst (decode_prefix b) = h0 :: rest /\ hdu_layout (h_cards h0) = Ok ly /\
     t_naxes t = List.rev (l_axes ly) /\                                   (* naxes[i] = NAXIS(ndim-i) *)
     length (t_order t) = length (l_axes ly) /\
     N.of_nat (length (t_coeffs t)) = prodN (l_axes ly) /\                 (* all of the image, nothing else *)
@@ -175,7 +176,7 @@ Definition before_ndim (e : err) : bool :=
   end.
 
 Definition header_ndim (b : list N) : nat :=
-  match fst (decode_prefix (whole_blocks b)) with
+  match fst (decode_prefix b) with
   | h0 :: _ => match hdu_layout (h_cards h0) with Ok ly => length (l_axes ly) | Error _ => 0%nat end
   | [] => 0%nat
   end.
@@ -224,6 +225,6 @@ Definition read_step (reader : list N -> rres) (s : objstate) (b : list N) : obj
 
 (* the unchecked reader in the same result type *)
 Definition read_bytes_unchecked (b : list N) : rres :=
-  let d := fst (decode_prefix (whole_blocks b)) in
+  let d := fst (decode_prefix b) in
   if negb (orders_plain d) then RReject EUnsupported else
   match of_doc d with Ok t => RAccept t | Error e => RReject e end.
